@@ -2,7 +2,7 @@
 # run_seeds.sh [ids...] : apply each seeded patch to a scratch copy of /repo HEAD and run the property's quick check on it.
 # Expected: every run prints a VIOLATION line (exit 1).  Never touches /repo.
 cd /verif
-for d in ${@:-$(ls seeded)}; do
+for d in ${@:-$(ls -d seeded/*/ | xargs -n1 basename)}; do
   prop=$(python3 -c "import json;print(json.load(open('seeded/$d/meta.json'))['property'])")
   out=$(tools/try_patch.sh seeded/$d/patch.diff $prop 2>&1)
   rc=$?
